@@ -130,7 +130,7 @@ PROPS = {
     "C06": {"exec": "C06", "compare": _proj(_k("FRAME")), "assumptions": CODEC_ASSUME + CLIENT_ASSUME + ["the loopback device never calls package rscp: it decrypts with crypto/cipher + rijndael256 under its own key padding and per-connection IV"]},
     "C07": {"exec": "C07", "compare": _proj(_k("READ", "WRITE")), "assumptions": CODEC_ASSUME + CLIENT_ASSUME},
     "C08": {"exec": "C08", "compare": _proj(_k("FRAME")), "assumptions": CODEC_ASSUME + CLIENT_ASSUME + ["the peer answers each request it receives once and in order (the scripted device does)"]},
-    "C09": {"exec": "C09", "compare": _proj(_k("WRITE")), "assumptions": CODEC_ASSUME + CLIENT_ASSUME},
+    "C09": {"exec": "C09", "compare": _proj(_k("WRITE", "FRAME")), "assumptions": CODEC_ASSUME + CLIENT_ASSUME},
     "C10": {"exec": "C10", "compare": _proj(_k("SETWD", "SETRD", "WRITE", "READ", "CLOSE")),
             "assumptions": CLIENT_ASSUME + ["PARTIAL: wall-clock time, the scheduler and the kernel honouring deadlines are outside the model; time is virtual in the scripted connection"]},
     "C11": {"exec": "C11", "compare": _proj(lambda e: _logs_dump_tree(e) or e.startswith("WRITE")),
